@@ -585,6 +585,12 @@ pub fn run(rng: &mut Rng, tier: &str, out: &str) -> Report {
         let ro_at = rng.below(sched as u64 + 1) as usize;
         let mut crashes = 0u64;
 
+        // half of the multi-peer sessions first sync to quiescence, so that the links have shared heads worth
+        // persisting (and worth losing) before connections drop and peers restart
+        if kind == "multi-peer" && rng.chance(1, 2) {
+            let _ = s.quiesce(&mut rep, 30);
+            rep.count("multi_peer_sessions_presynced");
+        }
         // ---------- random schedule ----------
         for t in 0..sched {
             if s.failed {
